@@ -7,7 +7,7 @@
    source text (s.offset at return minus a pending unit). *)
 From Coq Require Import List NArith ZArith Bool.
 Import ListNotations.
-From V Require Import Base.Prelude Gen.ScanTok Model.Scan Model.ScanRel
+From V Require Import Base.Prelude Gen.ScanTok Model.Scan Model.ScanRel Gen.ScanConst Proofs.ScanConst
   Proofs.ScanBase Proofs.ScanTotal Proofs.ScanSpec Proofs.ScanCor Proofs.ScanFuel.
 Open Scope Z_scope.
 
@@ -102,6 +102,34 @@ Example C15_example_sharp :
   = Some [(T_COMMENT, 0, [35%N]); (T_IDENT, 2, [102%N]); (T_SEMICOLON, 3, [10%N]); (T_EOF, 3, [])].
 Proof. split; vm_compute; reflexivity. Qed.
 
+(* K-gen: the numeric comparisons of scanner/scanner.go, translated from the source on every run
+   (Gen/ScanConst.v), are those of the model - for all values; a changed bound or operator in lower /
+   isDecimal / isHex / digitVal / isLetter / isDigit / skipWhitespace / scanEscape breaks this theorem *)
+Theorem C15_source_constants : forall ul ud,
+  (forall c, xgo_sc_lower c = lower c) /\ (forall c, xgo_sc_isDecimal c = is_decimal c)
+  /\ (forall c, xgo_sc_isHex c = is_hex c) /\ (forall c, xgo_sc_digitVal c = digit_val c)
+  /\ (forall c, xgo_sc_isLetter ul ud c = is_letter ul c) /\ (forall c, xgo_sc_isDigit ul ud c = is_digit ud c)
+  /\ (forall semi c, xgo_sc_skipCond semi c = is_blank_rune semi c)
+  /\ (forall mx x, xgo_sc_escInvalid mx x = esc_invalid mx x)
+  /\ (forall q c, existsb (Z.eqb c) xgo_sc_escSimple || (c =? q) = esc_simple q c)
+  /\ (forall c, zassoc c xgo_sc_escNumeric = esc_numeric c)
+  /\ xgo_sc_bom = bom.
+Proof.
+  intros ul ud.
+  split; [intros; apply xgo_lower|].
+  split; [intros; apply xgo_isDecimal|].
+  split; [intros; apply xgo_isHex|].
+  split; [intros; apply xgo_digitVal|].
+  split; [intros; apply xgo_isLetter|].
+  split; [intros; apply xgo_isDigit|].
+  split; [intros; apply xgo_skipCond|].
+  split; [intros; apply xgo_escInvalid|].
+  split; [intros; apply xgo_escSimple|].
+  split; [intros; apply xgo_escNumeric|].
+  apply xgo_bom.
+Qed.
+
+Print Assumptions C15_source_constants.
 Print Assumptions C15_scan_total.
 Print Assumptions C15_scan_ends_in_eof.
 Print Assumptions C15_scan_token_count.
